@@ -80,6 +80,16 @@ CHECKS = {
         text="BLS n<=7 (9), PS n<=5 (6) for (i); BLS n<=5 (6), PS n<=4 (5) for (ii). A random evaluation decides each polynomial identity up to 2^-240, as the property says.",
         note="Trusted: mathlib group arithmetic; exported SSS types.",
         design="2/C18"),
+    "C16": dict(level="fault_enumeration", engine="hcore",
+        technique="runtime monitoring of real TLS listeners: hostile handshake catalogue (field-level through the library's own client with a hostile AuthFunc, encoding-level through a raw TLS client that computes the channel binding itself) interleaved with honest connections; marker <-> connection <-> entitled identity oracle on the InMsg channel after a fence",
+        text="About 255 handshakes per quick run: domain (other registered, unregistered, empty, boundary shifted either way), binding (zero, random, truncated, bit flip, whole handshake recorded on another connection), identity (unregistered, foreign certificate, PEM with garbage, non-PEM, RSA, Ed25519, P-384), signature (absent, random, other key, over other binding/domain/timestamp, garbled, truncated), every 4th (thorough: every) truncation length, length-prefix lies, trailing bytes. Valid handshakes must be attributed to exactly the entitled node and domain; the raw client's unmodified handshake is the format self-check. A crash of the acceptor kills the child and is reported by the parent.",
+        note="Trusted: crypto/tls, the fence + grace period (a slow machine can only miss a detection). Timestamp staleness is not judged (not in the property's list).",
+        design="2/C16"),
+    "C17": dict(level="exploration", engine="hcore",
+        technique="runtime monitoring of real endpoints on loopback: sequence and multiset comparison of (type, topic, payload) digests per (connection, sending goroutine) over boundary payload sizes and concurrent senders; oversize refusal; fault scenarios (unreachable, closed, stalled, garbling peers) with a healthy-traffic continuity oracle",
+        text="Sizes {0,1,31,32,33,255,256,65535,65536,1 MiB,3 MiB,limit-1,limit,limit+1}, types with and without topic, up to 8 concurrent senders to two receivers; five garbling raw clients; three isolation scenarios (thorough adds the saturated queue of an unreachable peer: three 10 s stalls are reported, never a panic).",
+        note="Trusted: loopback TCP; 'all received' is bounded by message count with a 60 s watchdog.",
+        design="2/C17"),
 }
 
 NOT_YET = {}
